@@ -240,9 +240,9 @@ class MacroProcessor:
         if name in self._macros:
             expansion = self._macros[name]
 
-            # Substitute arguments: $1, $2, etc.
+            # Substitute arguments: ${1}, ${2}, ... (TaskJuggler syntax) and the short form $1, $2
             for i, arg in enumerate(args, 1):
-                expansion = expansion.replace(f"${i}", arg)
+                expansion = expansion.replace(f"${{{i}}}", arg).replace(f"${i}", arg)
 
             return expansion
 
